@@ -15,11 +15,13 @@ mod entropy;
 mod gen_sched;
 mod prng;
 mod props_adapt;
+mod props_c01;
 mod props_chain;
 mod props_fault;
 mod props_mclmc;
 mod props_posterior;
 mod props_sched;
+mod refnuts;
 mod props_sched_adapt;
 mod sched;
 mod simmath;
